@@ -44,7 +44,7 @@ LEVEL_TEXT = ("The path, line and offset domains are enumerated completely below
 LEVEL_NOTE = ("Reference definitions are 3-10 lines each (component-wise prefix, "
               "bytes.split on \\n, str.split on '/'); Python's float formatting is "
               "used only to classify the known fraction-rounding finding.")
-REGISTERED = False
+REGISTERED = True
 NONTRIVIAL_FLOOR = {"quick": 5000, "thorough": 100000}
 
 
